@@ -1,4 +1,4 @@
-\* repaired protocol with the update channel scaled down to 1 slot (2 connections x 1 caller): no wedge on a full channel
+\* repaired protocol = the code as it is now (all Fix* = TRUE) with the update channel scaled down to 1 slot (2 connections x 1 caller): no wedge on a full channel
 CONSTANTS
   NC = 2
   Waiters = {w1}
